@@ -658,7 +658,7 @@ def main(argv_tier=None, replay_path=None):
 
     viol, seen = classify(PROP, tally.rej)
     # report the shortest history of every (class, clause) first
-    viol.sort(key=lambda x: (len(x["trace"]["hist"]), x["trace"]["cid"]))
+    viol.sort(key=lambda x: (x["verdict"]["step"], len(x["trace"]["hist"]), x["trace"]["cid"]))
     by_key = {}
     for x in viol:
         by_key.setdefault(x["key"], []).append(x)
